@@ -1,10 +1,13 @@
-(* StoreChain.v — C05 / C06 / C14 at store level for hook chains of ANY depth.
+(* StoreChain.v — C05 / C06 / C14 at store level for hook chains of ANY depth and forests of held views.
    Chain s tr: a trail of held views, each obtained from the next ([i], .field, value()), every cell
    representing its value and every hook valid in its parent.  chain_get / chain_value: obtaining a child
    view extends the chain.  chain_set: set_backing through the bottom view rewrites every enclosing view to
    its value with the nested slot replaced.  new_backing_sound: whatever a mutating command computes for its
    target represents the value the command specifies (cmd_effect).  cmd_on_chain: a mutating command through
-   the bottom view either fails leaving the whole store untouched or updates the whole chain. *)
+   the bottom view either fails leaving the whole store untouched or updates the whole chain.
+   Forests: AllGood s vs (every held view represents its tracked value), Valid s vs u (every hook from u up is
+   valid now); forest_init / _get / _value / _copy / _mut keep AllGood with the tracked values evolving as
+   specified; forest_mut_keeps_valid: commands that shrink nothing keep every view usable. *)
 Require Import RM.Base RM.Gindex RM.Tree RM.TreeProofs RM.Types RM.Spec RM.ModelViews RM.ModelCodec RM.ModelMut RM.ModelStore
                RM.SerLen RM.FactsProofs RM.MerkleProofs RM.PackProofs RM.CtorProofs RM.PathProofs RM.CRepProofs
                RM.ListProofs RM.StoreProofs RM.SerProofs2 RM.ReprProofs RM.CtorSound RM.MutProofs RM.NodeProofs.
@@ -795,5 +798,377 @@ Proof.
   set (s1 := [c0] ++ [{| cty := ti; cback := m1; chook := HElem 0%nat 0 |}]) in *.
   destruct (chain_get s1 1%nat vi (LElem 0) [(0%nat, v, LRoot)] {| cty := ti; cback := m1; chook := HElem 0%nat 0 |} 1 tl (VSeq [el; el]) Ch1 eq_refl eq_refl eq_refl) as (m2 & _ & Ch2).
   eexists _, _. split; [exact Ch2|reflexivity].
+Qed.
+
+(* ---- forests of held views: any set of views obtained from one another, mutated in any order ---- *)
+Definition dv : val := VUint 0.
+(* vs tracks one value per cell *)
+Definition AllGood (s : store) (vs : list val) : Prop :=
+  length vs = length s /\ forall u c, nth_error s u = Some c -> good c (nth u vs dv).
+
+(* every hook on the way from u up to its top-level view is valid now *)
+Inductive Valid (s : store) (vs : list val) : vid -> Prop :=
+| V_root u c : nth_error s u = Some c -> chook c = HNone -> Valid s vs u
+| V_elem u c p i pc old : nth_error s u = Some c -> chook c = HElem p i -> (p < u)%nat ->
+    nth_error s p = Some pc -> elem_at (cty pc) (nth p vs dv) i = Some (cty c, old) -> Valid s vs p -> Valid s vs u
+| V_union u c p pc old : nth_error s u = Some c -> chook c = HUnionValue p -> (p < u)%nat ->
+    nth_error s p = Some pc -> uelem (cty pc) (nth p vs dv) = Some (cty c, old) -> Valid s vs p -> Valid s vs u.
+
+Definition tracked (vs : list val) (e : vid * val * link) : Prop := snd (fst e) = nth (fst (fst e)) vs dv.
+
+Lemma valid_chain s vs u : AllGood s vs -> Valid s vs u ->
+  exists lk rest, Chain s ((u, nth u vs dv, lk) :: rest) /\ Forall (tracked vs) rest.
+Proof.
+  intros [_ Hg] Hv. induction Hv as [u c Hc Hh|u c p i pc old Hc Hh Hlt Hp He Hv IH|u c p pc old Hc Hh Hlt Hp He Hv IH].
+  - exists LRoot, []. split; [|constructor]. apply (Ch_root s u c); auto.
+  - destruct IH as (lk & rest & Hch & Htr). exists (LElem i), ((p, nth p vs dv, lk) :: rest). split.
+    + apply (Ch_elem s u c _ p i pc _ old lk rest); auto.
+    + constructor; [reflexivity|exact Htr].
+  - destruct IH as (lk & rest & Hch & Htr). exists LUnion, ((p, nth p vs dv, lk) :: rest). split.
+    + apply (Ch_union s u c _ p pc _ old lk rest); auto.
+    + constructor; [reflexivity|exact Htr].
+Qed.
+
+(* write the trail's values into the tracking list *)
+Fixpoint put_trail (tr : list (vid * val * link)) (vs : list val) : list val :=
+  match tr with [] => vs | (u, w, _) :: r => upd u w (put_trail r vs) end.
+
+Lemma put_trail_len tr vs : length (put_trail tr vs) = length vs.
+Proof. induction tr as [|[[u w] lk] r IH]; [reflexivity|]. cbn [put_trail]. now rewrite upd_len. Qed.
+
+Lemma nth_upd_other {A} (x d : A) : forall l i j, i <> j -> nth j (upd i x l) d = nth j l d.
+Proof. induction l as [|h l IH]; intros [|i] [|j] Hne; cbn; auto; try contradiction; try (apply IH; lia). Qed.
+
+Lemma put_trail_other tr vs u : (forall e, In e tr -> fst (fst e) <> u) -> nth u (put_trail tr vs) dv = nth u vs dv.
+Proof.
+  induction tr as [|[[w x] lk] r IH]; intros Hu; [reflexivity|]. cbn [put_trail].
+  rewrite nth_upd_other by (apply (Hu (w, x, lk)); now left). apply IH. intros e Hin. apply Hu. now right.
+Qed.
+
+Lemma put_trail_in s tr : Chain s tr -> forall vs u w lk, length vs = length s -> In (u, w, lk) tr -> nth u (put_trail tr vs) dv = w.
+Proof.
+  intros Hch vs. induction Hch as [cid c v Hc Hh Hg|cid c v p i pc pv old lk rest Hc Hh Hg Hlt Hp He Hch IH|cid c v p pc pv old lk rest Hc Hh Hg Hlt Hp He Hch IH];
+    intros u w lk0 Hlen Hin.
+  - destruct Hin as [E|[]]. inversion E; subst. cbn [put_trail]. apply nth_upd_same. rewrite Hlen. apply nth_error_Some. congruence.
+  - destruct Hin as [E|Hin].
+    + inversion E; subst. cbn [put_trail]. apply nth_upd_same. rewrite upd_len, put_trail_len, Hlen. apply nth_error_Some. congruence.
+    + change (put_trail ((cid, v, LElem i) :: (p, pv, lk) :: rest) vs) with (upd cid v (put_trail ((p, pv, lk) :: rest) vs)).
+      pose proof (chain_ids s _ (Ch_elem s cid c v p i pc pv old lk rest Hc Hh Hg Hlt Hp He Hch) cid v (LElem i) _ eq_refl) as Hids.
+      rewrite Forall_forall in Hids. specialize (Hids _ Hin). cbn [fst] in Hids.
+      rewrite nth_upd_other by lia. now apply (IH u w lk0).
+  - destruct Hin as [E|Hin].
+    + inversion E; subst. cbn [put_trail]. apply nth_upd_same. rewrite upd_len, put_trail_len, Hlen. apply nth_error_Some. congruence.
+    + change (put_trail ((cid, v, LUnion) :: (p, pv, lk) :: rest) vs) with (upd cid v (put_trail ((p, pv, lk) :: rest) vs)).
+      pose proof (chain_ids s _ (Ch_union s cid c v p pc pv old lk rest Hc Hh Hg Hlt Hp He Hch) cid v LUnion _ eq_refl) as Hids.
+      rewrite Forall_forall in Hids. specialize (Hids _ Hin). cbn [fst] in Hids.
+      rewrite nth_upd_other by lia. now apply (IH u w lk0).
+Qed.
+
+Lemma retrail_ids x tr : map (fun e => fst (fst e)) (retrail x tr) = map (fun e => fst (fst e)) tr.
+Proof.
+  revert x. induction tr as [|[[u w] lk] r IH]; intros x; [reflexivity|]. cbn [retrail map fst]. f_equal.
+  destruct lk; try reflexivity; destruct r as [|[[p pv] lk'] r']; try reflexivity; apply IH.
+Qed.
+
+Lemma in_ids_dec (tr : list (vid * val * link)) u : {In u (map (fun e => fst (fst e)) tr)} + {~ In u (map (fun e => fst (fst e)) tr)}.
+Proof. apply in_dec. apply Nat.eq_dec. Qed.
+
+
+(* the trail of a view, computed by following the hooks *)
+Fixpoint trail_of (fuel : nat) (s : store) (vs : list val) (u : vid) : list (vid * val * link) :=
+  match nth_error s u with
+  | None => []
+  | Some c =>
+      match chook c with
+      | HNone => [(u, nth u vs dv, LRoot)]
+      | HElem p i => (u, nth u vs dv, LElem i) :: match fuel with O => [] | S f => trail_of f s vs p end
+      | HUnionValue p => (u, nth u vs dv, LUnion) :: match fuel with O => [] | S f => trail_of f s vs p end
+      end
+  end.
+
+Lemma valid_trail s vs u : AllGood s vs -> Valid s vs u -> forall fuel, (u <= fuel)%nat ->
+  Chain s (trail_of fuel s vs u) /\ exists lk rest, trail_of fuel s vs u = (u, nth u vs dv, lk) :: rest.
+Proof.
+  intros [_ Hg] Hv. induction Hv as [u c Hc Hh|u c p i pc old Hc Hh Hlt Hp He Hv IH|u c p pc old Hc Hh Hlt Hp He Hv IH]; intros fuel Hf.
+  - destruct fuel; cbn [trail_of]; rewrite Hc, Hh; (split; [apply (Ch_root s u c); auto|eauto]).
+  - destruct fuel as [|f]; [lia|]. cbn [trail_of]. rewrite Hc, Hh. destruct (IH f ltac:(lia)) as (Hch & lk & rest & Et).
+    split; [|eauto]. rewrite Et in *. apply (Ch_elem s u c _ p i pc _ old lk rest); auto.
+  - destruct fuel as [|f]; [lia|]. cbn [trail_of]. rewrite Hc, Hh. destruct (IH f ltac:(lia)) as (Hch & lk & rest & Et).
+    split; [|eauto]. rewrite Et in *. apply (Ch_union s u c _ p pc _ old lk rest); auto.
+Qed.
+
+(* the tracked values after a successful mutating command with specified effect x *)
+Definition track_mut (s : store) (vs : list val) (cm : cmd) (x : val) : list val :=
+  put_trail (retrail x (trail_of (length s) s vs (target cm))) vs.
+
+Theorem forest_mut s vs cm : AllGood s vs -> Valid s vs (target cm) -> mutating cm = true ->
+  (exists e, run_cmd s cm = (Err e, s)) \/
+  (exists x s', cmd_effect (cty_at s (target cm)) (nth (target cm) vs dv) cm = Some x /\ run_cmd s cm = (Ok tt, s') /\
+     same_shape s s' /\ AllGood s' (track_mut s vs cm x)).
+Proof.
+  intros Hag Hv Hm.
+  assert (target cm < length s)%nat as Hlt by (inversion Hv; apply nth_error_Some; congruence).
+  destruct (valid_trail s vs _ Hag Hv (length s) ltac:(lia)) as (Hch & lk & rest & Et). unfold track_mut. rewrite Et in *.
+  destruct (cmd_on_chain s cm _ (target cm) _ lk rest Hch eq_refl eq_refl Hm) as [He|(x & s' & Hx & Hr & Hch' & Hsh & Hfr)]; [left; exact He|].
+  right. exists x, s'. split; [exact Hx|]. split; [exact Hr|]. split; [exact Hsh|].
+  destruct Hag as [Hlen Hg]. destruct Hsh as [Hlen' Hshape]. split; [rewrite put_trail_len; lia|].
+  intros u c' Hc'. set (tr := (target cm, nth (target cm) vs dv, lk) :: rest) in *.
+  destruct (in_ids_dec (retrail x tr) u) as [Hin|Hnin].
+  - apply in_map_iff in Hin as ([[u0 w] lk0] & Eu & Hin). cbn [fst] in Eu. subst u0.
+    destruct (chain_observe s' _ Hch' u w lk0 Hin) as (c2 & Hc2 & _). rewrite Hc' in Hc2. inversion Hc2; subst c2.
+    rewrite (put_trail_in s' _ Hch' vs u w lk0 ltac:(lia) Hin).
+    clear -Hch' Hin Hc'. induction Hch' as [cid c v Hc Hh Hg|cid c v p i pc pv old lk1 rest1 Hc Hh Hg Hlt Hp He Hch1 IH|cid c v p pc pv old lk1 rest1 Hc Hh Hg Hlt Hp He Hch1 IH].
+    + destruct Hin as [E|[]]. inversion E; subst. rewrite Hc in Hc'. inversion Hc'; subst. exact Hg.
+    + destruct Hin as [E|Hin]; [inversion E; subst; rewrite Hc in Hc'; inversion Hc'; subst; exact Hg|now apply IH].
+    + destruct Hin as [E|Hin]; [inversion E; subst; rewrite Hc in Hc'; inversion Hc'; subst; exact Hg|now apply IH].
+  - assert (forall e, In e tr -> fst (fst e) <> u) as Hout.
+    { intros e Hin Eu. apply Hnin. rewrite retrail_ids. apply in_map_iff. exists e. split; [exact Eu|exact Hin]. }
+    rewrite (Hfr u Hout) in Hc'. rewrite put_trail_other.
+    + now apply Hg.
+    + intros e Hin Eu. apply Hnin. apply in_map_iff. exists e. split; [exact Eu|exact Hin].
+Qed.
+
+(* obtaining views: the new cell is tracked with the addressed sub-value; everything held before stays as it was *)
+Lemma valid_app s vs l l' u : length vs = length s -> Valid s vs u -> Valid (s ++ l) (vs ++ l') u.
+Proof.
+  intros Hlen Hv. induction Hv as [u c Hc Hh|u c p i pc old Hc Hh Hlt Hp He Hv IH|u c p pc old Hc Hh Hlt Hp He Hv IH].
+  - apply (V_root _ _ u c); [|exact Hh]. rewrite nth_error_app1; [exact Hc|apply nth_error_Some; congruence].
+  - assert (p < length s)%nat as Hpl by (apply nth_error_Some; congruence).
+    apply (V_elem _ _ u c p i pc old); auto.
+    + rewrite nth_error_app1; [exact Hc|apply nth_error_Some; congruence].
+    + rewrite nth_error_app1; [exact Hp|exact Hpl].
+    + rewrite app_nth1 by lia. exact He.
+  - assert (p < length s)%nat as Hpl by (apply nth_error_Some; congruence).
+    apply (V_union _ _ u c p pc old); auto.
+    + rewrite nth_error_app1; [exact Hc|apply nth_error_Some; congruence].
+    + rewrite nth_error_app1; [exact Hp|exact Hpl].
+    + rewrite app_nth1 by lia. exact He.
+Qed.
+
+Lemma allgood_app s vs c w : AllGood s vs -> good c w -> AllGood (s ++ [c]) (vs ++ [w]).
+Proof.
+  intros [Hlen Hg] Hc. split; [rewrite !app_length; cbn; lia|]. intros u c' Hu.
+  destruct (Nat.lt_ge_cases u (length s)) as [Hlt|Hge].
+  - rewrite nth_error_app1 in Hu by exact Hlt. rewrite app_nth1 by lia. now apply Hg.
+  - assert (u = length s) as -> .
+    { assert (u < length (s ++ [c]))%nat by (apply nth_error_Some; congruence). rewrite app_length in *. cbn in *. lia. }
+    rewrite nth_error_app2, Nat.sub_diag in Hu by lia. inversion Hu; subst c'. rewrite app_nth2, <- Hlen, Nat.sub_diag by lia. exact Hc.
+Qed.
+
+Theorem forest_get s vs p pc i e old : AllGood s vs -> Valid s vs p -> nth_error s p = Some pc ->
+  elem_at (cty pc) (nth p vs dv) i = Some (e, old) -> hooked e = true ->
+  exists m, let s' := s ++ [{| cty := e; cback := m; chook := HElem p i |}] in
+    run_cmd s (CGet p (Z.of_N i)) = (Ok tt, s') /\
+    AllGood s' (vs ++ [old]) /\ Valid s' (vs ++ [old]) (length s) /\ (forall u, Valid s vs u -> Valid s' (vs ++ [old]) u).
+Proof.
+  intros Hag Hv Hp He Hk. pose proof Hag as [Hlen Hg].
+  assert (p < length s)%nat as Hpl by (apply nth_error_Some; congruence).
+  destruct (valid_trail s vs p Hag Hv (length s) ltac:(lia)) as (Hch & lk & rest & Et). rewrite Et in Hch.
+  destruct (chain_get s p _ lk rest pc i e old Hch Hp He Hk) as (m & Hr & Hch').
+  set (cc := {| cty := e; cback := m; chook := HElem p i |}) in *.
+  exists m. cbv zeta. fold cc. split; [exact Hr|].
+  destruct (chain_head _ _ _ _ _ Hch') as (c0 & Hc0 & Hg0).
+  rewrite nth_error_app2, Nat.sub_diag in Hc0 by lia. inversion Hc0; subst c0.
+  split; [now apply allgood_app|]. split.
+  - apply (V_elem _ _ (length s) cc p i pc old); auto.
+    + rewrite nth_error_app2, Nat.sub_diag by lia. reflexivity.
+    + rewrite nth_error_app1 by lia. exact Hp.
+    + rewrite app_nth1 by lia. exact He.
+    + now apply valid_app.
+  - intros u Hu. now apply valid_app.
+Qed.
+
+Theorem forest_value s vs p pc o old : AllGood s vs -> Valid s vs p -> nth_error s p = Some pc ->
+  uelem (cty pc) (nth p vs dv) = Some (o, old) -> hooked o = true ->
+  exists m, let s' := s ++ [{| cty := o; cback := m; chook := HUnionValue p |}] in
+    run_cmd s (CValue p) = (Ok tt, s') /\
+    AllGood s' (vs ++ [old]) /\ Valid s' (vs ++ [old]) (length s) /\ (forall u, Valid s vs u -> Valid s' (vs ++ [old]) u).
+Proof.
+  intros Hag Hv Hp He Hk. pose proof Hag as [Hlen Hg].
+  assert (p < length s)%nat as Hpl by (apply nth_error_Some; congruence).
+  destruct (valid_trail s vs p Hag Hv (length s) ltac:(lia)) as (Hch & lk & rest & Et). rewrite Et in Hch.
+  destruct (chain_value s p _ lk rest pc o old Hch Hp He Hk) as (m & Hr & Hch').
+  set (cc := {| cty := o; cback := m; chook := HUnionValue p |}) in *.
+  exists m. cbv zeta. fold cc. split; [exact Hr|].
+  destruct (chain_head _ _ _ _ _ Hch') as (c0 & Hc0 & Hg0).
+  rewrite nth_error_app2, Nat.sub_diag in Hc0 by lia. inversion Hc0; subst c0.
+  split; [now apply allgood_app|]. split.
+  - apply (V_union _ _ (length s) cc p pc old); auto.
+    + rewrite nth_error_app2, Nat.sub_diag by lia. reflexivity.
+    + rewrite nth_error_app1 by lia. exact Hp.
+    + rewrite app_nth1 by lia. exact He.
+    + now apply valid_app.
+  - intros u Hu. now apply valid_app.
+Qed.
+
+Theorem forest_copy s vs p pc : AllGood s vs -> nth_error s p = Some pc ->
+  let s' := s ++ [{| cty := cty pc; cback := cback pc; chook := HNone |}] in
+    run_cmd s (CCopy p) = (Ok tt, s') /\
+    AllGood s' (vs ++ [nth p vs dv]) /\ Valid s' (vs ++ [nth p vs dv]) (length s) /\
+    (forall u, Valid s vs u -> Valid s' (vs ++ [nth p vs dv]) u).
+Proof.
+  intros Hag Hp. pose proof Hag as [Hlen Hg].
+  set (cc := {| cty := cty pc; cback := cback pc; chook := HNone |}).
+  cbv zeta. fold cc. split; [cbn [ModelStore.run_cmd]; cbv zeta; rewrite Hp; reflexivity|].
+  split; [apply allgood_app; [exact Hag|exact (Hg p pc Hp)]|]. split.
+  - apply (V_root _ _ (length s) cc); [|reflexivity]. rewrite nth_error_app2, Nat.sub_diag by lia. reflexivity.
+  - intros u Hu. now apply valid_app.
+Qed.
+
+(* a freshly constructed top-level view *)
+Theorem forest_init t v n : wf_ty t = true -> wf t v = true -> mk H t v = Ok n ->
+  AllGood [{| cty := t; cback := n; chook := HNone |}] [v] /\ Valid [{| cty := t; cback := n; chook := HNone |}] [v] 0%nat.
+Proof.
+  intros Hty Hwf Hm. split.
+  - split; [reflexivity|]. intros [|u] c Hc; cbn in Hc; [|destruct u; discriminate]. inversion Hc; subst c. cbn [nth].
+    split; [exact Hty|]. split; [exact Hwf|]. exact (mk_Repr H src t v n Hty Hwf Hm).
+  - apply (V_root _ _ 0%nat {| cty := t; cback := n; chook := HNone |}); reflexivity.
+Qed.
+
+(* what AllGood means for the observer *)
+Theorem allgood_observed s vs : AllGood s vs -> forall u c, nth_error s u = Some c ->
+  root H (cback c) = htr H (cty c) (nth u vs dv) /\ ser_ok H src (cty c) (nth u vs dv) (cback c).
+Proof.
+  intros [_ Hg] u c Hc. destruct (Hg u c Hc) as (Hty & Hwf & Hr). split; [now apply (Repr_root H)|now apply Repr_ser].
+Qed.
+
+(* ---- which views stay usable: commands that do not shrink anything keep every hook valid ---- *)
+Definition slots_le (t : ty) (v v' : val) : Prop :=
+  (forall i e old, elem_at t v i = Some (e, old) -> exists old', elem_at t v' i = Some (e, old')) /\
+  (forall e old, uelem t v = Some (e, old) -> exists old', uelem t v' = Some (e, old')).
+
+Lemma slots_refl t v : slots_le t v v.
+Proof. split; eauto. Qed.
+
+Lemma slots_set_elem t pv j x : slots_le t pv (set_elem pv j x).
+Proof.
+  split.
+  - intros i e old He. destruct t; destruct pv; cbn [elem_at set_elem] in *; try discriminate; eauto.
+    + destruct (basic_size t); [discriminate|]. unfold lenN in *. rewrite upd_len. destruct (i <? N.of_nat (length vs)); [|discriminate].
+      inversion He; subst. eauto.
+    + destruct (basic_size t); [discriminate|]. unfold lenN in *. rewrite upd_len. destruct (i <? N.of_nat (length vs)); [|discriminate].
+      inversion He; subst. eauto.
+    + destruct (nth_error fs (N.to_nat i)) as [f|]; [|discriminate]. destruct (nth_error vs (N.to_nat i)) as [y|] eqn:Hy; [|discriminate].
+      inversion He; subst. assert (N.to_nat i < length vs)%nat as Hl by (apply nth_error_Some; congruence).
+      destruct (nth_error (upd (N.to_nat j) x vs) (N.to_nat i)) as [y'|] eqn:Hy'; [eauto|].
+      apply nth_error_None in Hy'. rewrite upd_len in Hy'. lia.
+  - intros e old He. destruct t; destruct pv; cbn [uelem set_elem] in *; try discriminate; eauto.
+Qed.
+
+Lemma slots_uset t pv x : slots_le t pv (uset pv x).
+Proof.
+  split.
+  - intros i e old He. destruct t; destruct pv; cbn [elem_at uset] in *; try discriminate; eauto.
+  - intros e old He. exists x. now apply (uelem_set t pv e old x).
+Qed.
+
+Definition shrinking (cm : cmd) : bool := match cm with CPop _ | CChange _ _ _ => true | _ => false end.
+
+Lemma slots_effect t v cm x : shrinking cm = false -> cmd_effect t v cm = Some x -> slots_le t v x.
+Proof.
+  intros Hs He. destruct cm; try discriminate; cbn [cmd_effect] in He.
+  - (* set *) destruct t; destruct v; try discriminate.
+    + destruct (arg_val t a) as [w|]; [|discriminate]. inversion He; subst. rewrite <- Z_N_nat. apply (slots_set_elem (TVector t n) (VSeq vs) (Z.to_N i) w).
+    + destruct (arg_val t a) as [w|]; [|discriminate]. inversion He; subst. rewrite <- Z_N_nat. apply (slots_set_elem (TList t limit) (VSeq vs) (Z.to_N i) w).
+    + destruct (nth_error fs (Z.to_nat i)) as [f|]; [|discriminate]. destruct (arg_val f a) as [w|]; [|discriminate]. inversion He; subst.
+      rewrite <- (Z_N_nat i). apply (slots_set_elem (TContainer fs) (VCont vs) (Z.to_N i) w).
+  - (* append *) destruct t; destruct v; try discriminate.
+    + destruct a as [[]| |]; try discriminate. inversion He; subst. split; intros; cbn [elem_at uelem] in *; discriminate.
+    + destruct (arg_val t a) as [w|]; [|discriminate]. inversion He; subst. split; [|intros; cbn [uelem] in *; discriminate].
+      intros i e old Hel. cbn [elem_at] in *. destruct (basic_size t); [discriminate|]. destruct (i <? lenN vs) eqn:Hi; [|discriminate].
+      inversion Hel; subst. apply N.ltb_lt in Hi. assert ((i <? lenN (vs ++ [w])) = true) as -> by (apply N.ltb_lt; rewrite lenN_app; lia). eauto.
+  - (* bit set *) destruct v; try discriminate. destruct a as [[]| |]; try discriminate. inversion He; subst.
+    split; intros; destruct t; cbn [elem_at uelem] in *; discriminate.
+Qed.
+
+Lemma cty_at_some s u c : nth_error s u = Some c -> cty_at s u = cty c.
+Proof. intros Hc. unfold cty_at. now rewrite Hc. Qed.
+
+Lemma retrail_slots s tr : Chain s tr -> forall vs x u v lk rest, tr = (u, v, lk) :: rest -> Forall (tracked vs) tr ->
+  slots_le (cty_at s u) v x -> length vs = length s ->
+  forall p, slots_le (cty_at s p) (nth p vs dv) (nth p (put_trail (retrail x tr) vs) dv).
+Proof.
+  induction 1 as [cid c v Hc Hh Hg|cid c v p0 i pc pv old lk rest Hc Hh Hg Hlt Hp He Hch IH|cid c v p0 pc pv old lk rest Hc Hh Hg Hlt Hp He Hch IH];
+    intros vs x u v0 lk0 rest0 E Htr Hsl Hlen q; inversion E; subst u v0 lk0 rest0; clear E;
+    assert (cid < length s)%nat as Hcl by (apply nth_error_Some; congruence);
+    inversion Htr as [|e0 l0 Ht0 Htr']; subst; unfold tracked in Ht0; cbn [fst snd] in Ht0.
+  - cbn [retrail put_trail]. destruct (Nat.eq_dec q cid) as [->|Hne].
+    + rewrite nth_upd_same by lia. now rewrite <- Ht0.
+    + rewrite nth_upd_other by auto. apply slots_refl.
+  - change (retrail x ((cid, v, LElem i) :: (p0, pv, lk) :: rest)) with ((cid, x, LElem i) :: retrail (set_elem pv i x) ((p0, pv, lk) :: rest)).
+    cbn [put_trail]. destruct (Nat.eq_dec q cid) as [->|Hne].
+    + rewrite nth_upd_same by (rewrite put_trail_len; lia). now rewrite <- Ht0.
+    + rewrite nth_upd_other by auto. apply (IH vs (set_elem pv i x) p0 pv lk rest eq_refl Htr'); [|exact Hlen]. apply slots_set_elem.
+  - change (retrail x ((cid, v, LUnion) :: (p0, pv, lk) :: rest)) with ((cid, x, LUnion) :: retrail (uset pv x) ((p0, pv, lk) :: rest)).
+    cbn [put_trail]. destruct (Nat.eq_dec q cid) as [->|Hne].
+    + rewrite nth_upd_same by (rewrite put_trail_len; lia). now rewrite <- Ht0.
+    + rewrite nth_upd_other by auto. apply (IH vs (uset pv x) p0 pv lk rest eq_refl Htr'); [|exact Hlen]. apply slots_uset.
+Qed.
+
+Lemma trail_tracked s vs : forall fuel u, Forall (tracked vs) (trail_of fuel s vs u).
+Proof.
+  induction fuel as [|f IH]; intros u; cbn [trail_of]; destruct (nth_error s u) as [c|]; try constructor; destruct (chook c); repeat constructor; auto.
+Qed.
+
+Lemma same_shape_cell s s' u c : same_shape s s' -> nth_error s u = Some c ->
+  exists c', nth_error s' u = Some c' /\ cty c' = cty c /\ chook c' = chook c.
+Proof.
+  intros [_ Hsh] Hc. specialize (Hsh u). rewrite Hc in Hsh. destruct (nth_error s' u) as [c'|]; [|discriminate].
+  cbn in Hsh. unfold shape in Hsh. inversion Hsh. eauto.
+Qed.
+
+(* after a successful command that shrinks nothing (assignment, append, bit assignment), every view that was usable
+   is still usable: histories of such commands, through any of the held views in any order, never leave the
+   theorem's premise *)
+Theorem forest_mut_keeps_valid s vs cm x s' : AllGood s vs -> Valid s vs (target cm) -> mutating cm = true ->
+  shrinking cm = false -> run_cmd s cm = (Ok tt, s') ->
+  cmd_effect (cty_at s (target cm)) (nth (target cm) vs dv) cm = Some x ->
+  forall u, Valid s vs u -> Valid s' (track_mut s vs cm x) u.
+Proof.
+  intros Hag Hv Hm Hns Hr Hx.
+  destruct (forest_mut s vs cm Hag Hv Hm) as [(e & He)|(x0 & s0 & Hx0 & Hr0 & Hsh & _)]; [rewrite Hr in He; discriminate|].
+  rewrite Hr in Hr0. inversion Hr0; subst s0. clear Hr0 Hx0.
+  assert (target cm < length s)%nat as Hlt by (inversion Hv; apply nth_error_Some; congruence).
+  destruct (valid_trail s vs _ Hag Hv (length s) ltac:(lia)) as (Hch & lk & rest & Et).
+  pose proof Hag as [Hlen _].
+  assert (forall p, slots_le (cty_at s p) (nth p vs dv) (nth p (track_mut s vs cm x) dv)) as Hslots.
+  { unfold track_mut. apply (retrail_slots s _ Hch vs x (target cm) (nth (target cm) vs dv) lk rest Et (trail_tracked s vs _ _)); [|exact Hlen].
+    now apply (slots_effect _ _ cm). }
+  intros u Hu. induction Hu as [u c Hc Hh|u c p i pc old Hc Hh Hlt' Hp He Hv' IH|u c p pc old Hc Hh Hlt' Hp He Hv' IH].
+  - destruct (same_shape_cell s s' u c Hsh Hc) as (c' & Hc' & _ & Hh'). apply (V_root _ _ u c'); congruence.
+  - destruct (same_shape_cell s s' u c Hsh Hc) as (c' & Hc' & Ht' & Hh'). destruct (same_shape_cell s s' p pc Hsh Hp) as (pc' & Hp' & Htp & _).
+    destruct (Hslots p) as [Hs1 _]. rewrite (cty_at_some s p pc Hp) in Hs1. destruct (Hs1 i _ _ He) as (old' & He').
+    apply (V_elem _ _ u c' p i pc' old'); auto; congruence.
+  - destruct (same_shape_cell s s' u c Hsh Hc) as (c' & Hc' & Ht' & Hh'). destruct (same_shape_cell s s' p pc Hsh Hp) as (pc' & Hp' & Htp & _).
+    destruct (Hslots p) as [_ Hs2]. rewrite (cty_at_some s p pc Hp) in Hs2. destruct (Hs2 _ _ He) as (old' & He').
+    apply (V_union _ _ u c' p pc' old'); auto; congruence.
+Qed.
+
+(* a view that is not on the written view's trail keeps its tracked value (and, by AllGood, its root and encoding):
+   snapshots, copies, siblings, and the views a copy was taken from *)
+Lemma track_mut_other s vs cm x u : (forall e, In e (trail_of (length s) s vs (target cm)) -> fst (fst e) <> u) ->
+  nth u (track_mut s vs cm x) dv = nth u vs dv.
+Proof.
+  intros Hu. unfold track_mut. apply put_trail_other. intros e Hin Eu.
+  assert (In u (map (fun e => fst (fst e)) (retrail x (trail_of (length s) s vs (target cm))))) as Hi by (apply in_map_iff; eauto).
+  rewrite retrail_ids in Hi. apply in_map_iff in Hi as (e' & Ee & Hin'). exact (Hu e' Hin' Ee).
+Qed.
+
+(* non-vacuity: a top-level view with two simultaneously held, usable child views *)
+Example forest_exists : exists s vs, AllGood s vs /\ length s = 3%nat /\ Valid s vs 1%nat /\ Valid s vs 2%nat.
+Proof.
+  set (tl := TList (TUint 1) 4).
+  set (ti := TContainer [TUint 8; tl]).
+  set (t := TContainer [ti; tl]).
+  set (vi := VCont [VUint 5; VSeq [VUint 1; VUint 2]]).
+  set (v := VCont [vi; VSeq [VUint 3]]).
+  assert (wf_ty t = true) as Hty by reflexivity. assert (wf t v = true) as Hwf by reflexivity.
+  destruct (mk_root H t v Hty Hwf) as (n & Hn & _).
+  destruct (forest_init t v n Hty Hwf Hn) as [Hag0 Hv0].
+  set (c0 := {| cty := t; cback := n; chook := HNone |}) in *.
+  destruct (forest_get [c0] [v] 0%nat c0 0 ti vi Hag0 Hv0 eq_refl eq_refl eq_refl) as (m1 & _ & Hag1 & Hv1 & Hk1).
+  set (s1 := [c0] ++ [{| cty := ti; cback := m1; chook := HElem 0%nat 0 |}]) in *.
+  destruct (forest_get s1 ([v] ++ [vi]) 0%nat c0 1 tl (VSeq [VUint 3]) Hag1 (Hk1 0%nat Hv0) eq_refl eq_refl eq_refl) as (m2 & _ & Hag2 & Hv2 & Hk2).
+  eexists _, _. split; [exact Hag2|]. split; [reflexivity|]. split; [exact (Hk2 1%nat Hv1)|exact Hv2].
 Qed.
 End WithHash.
